@@ -1,4 +1,6 @@
 """What MANIFEST.json claims, per property (see mkmanifest.py)."""
+BND = "bounded stand-in only; not a proof. "
+
 CLAIMS = {
     "C01": dict(
         category="other", engine="pyvc+rtc",
